@@ -16,6 +16,50 @@ TOOL_ID = 4
 _mon = sys.monitoring
 
 
+_WRITE_LINES = {}
+
+
+def write_lines(code):
+    """Line numbers of a code object that store into an attribute, a
+    subscript or a global (shared state, as opposed to local variables)."""
+    s = _WRITE_LINES.get(code)
+    if s is None:
+        import dis
+        s = set()
+        line = None
+        for ins in dis.get_instructions(code):
+            if ins.starts_line is not None:
+                line = ins.starts_line
+            if ins.opname in ("STORE_ATTR", "STORE_SUBSCR", "STORE_GLOBAL",
+                              "DELETE_ATTR", "DELETE_SUBSCR"):
+                s.add(line)
+        _WRITE_LINES[code] = s
+    return s
+
+
+def prewarm_write_lines(filenames):
+    """Fill the write-line table for every code object defined in the given
+    source files (done once in the parent, inherited by every forked run)."""
+    import gc
+    import types
+    seen = set()
+
+    def walk(code):
+        if code in seen:
+            return
+        seen.add(code)
+        write_lines(code)
+        for c in code.co_consts:
+            if isinstance(c, types.CodeType):
+                walk(c)
+    files = set(filenames)
+    for obj in gc.get_objects():
+        if isinstance(obj, types.FunctionType):
+            code = obj.__code__
+            if code.co_filename in files:
+                walk(code)
+
+
 class SimBaseException(BaseException):
     """Base for simulator control-flow exceptions (BaseException so that
     ``except Exception`` in code under test cannot swallow them)."""
@@ -114,7 +158,7 @@ def _on_line(code, line):
     cur = s.current
     if cur is None or _real_thread.get_ident() != cur.ident:
         return None
-    s.yield_point(code.co_name, line)
+    s.yield_point(code.co_name, line, line in write_lines(code))
     return None
 
 
@@ -218,6 +262,10 @@ class Task(object):
         self.thread = None
         self.error = None
         self.steps = 0
+        self.nlocks = 0         # simulated locks currently held
+        self.deferred = False   # pre-empted inside a critical section
+        self.last_write = False
+        self.after_write = False
 
 
 class Scheduler(object):
@@ -268,6 +316,8 @@ class Scheduler(object):
             h = max(2, int(st.get("horizon", 400)))
             k = int(st.get("k", 1))
             self.preempt_at = set(self.rng.randrange(1, h) for _ in range(k))
+        elif kind == "crit":
+            self.crit_budget = int(st.get("k", 2))
         elif kind == "pct":
             h = max(2, int(st.get("horizon", 400)))
             d = int(st.get("d", 2))
@@ -386,6 +436,32 @@ class Scheduler(object):
                 others = [t for t in runnable if t is not cur]
                 return others[rng.randrange(len(others))]
             return cur
+        if kind == "crit":
+            # pre-empt a thread while it is INSIDE a critical section and
+            # keep it parked until nothing else can run: exposes readers
+            # that do not take the lock (publication-order bugs)
+            live = [t for t in runnable if not t.deferred]
+            if cur is not None and not cur.deferred:
+                eligible = cur.after_write or \
+                    (cur.nlocks > 0 and rng.random() < 0.1)
+                if eligible and self.crit_budget > 0 and \
+                        len(runnable) > 1 and \
+                        rng.random() < st.get("q", 0.15):
+                    self.crit_budget -= 1
+                    cur.deferred = True
+                    others = [t for t in live if t is not cur] or \
+                        [t for t in runnable if t is not cur]
+                    return others[rng.randrange(len(others))]
+                if len(live) > 1 and rng.random() < st.get("p", 0.02):
+                    others = [t for t in live if t is not cur]
+                    return others[rng.randrange(len(others))]
+                return cur
+            if live:
+                return live[rng.randrange(len(live))]
+            # only deferred tasks can run: release one of them
+            t = runnable[rng.randrange(len(runnable))]
+            t.deferred = False
+            return t
         if kind == "pct":
             if cur is not None and idx in self.change_at:
                 self.prio[cur.id] = self.change_at[idx]
@@ -407,10 +483,14 @@ class Scheduler(object):
         # resumed: self.current is cur again
 
     # -- called from the running task ---------------------------------------
-    def yield_point(self, co_name, line):
+    def yield_point(self, co_name, line, is_write=False):
         cur = self.current
         self.nyield += 1
         cur.steps += 1
+        # "the previous line of this task stored into shared state": the
+        # window right after a write is where unlocked readers go wrong
+        cur.after_write = cur.last_write
+        cur.last_write = is_write
         if self.nyield > self.max_steps:
             self._finish(dict(kind="violation", invariant="liveness.budget",
                               detail=dict(task=cur.name, at="%s:%s" %
@@ -449,6 +529,7 @@ class Scheduler(object):
         lock.held = True
         lock.owner = cur
         lock.acquisitions += 1
+        cur.nlocks += 1
         return True
 
     def lock_release(self, lock):
@@ -456,6 +537,8 @@ class Scheduler(object):
             raise RuntimeError("release unlocked lock")
         if lock.owner is not self.current:
             K.probe("release_by_nonowner")
+        if getattr(lock.owner, "nlocks", 0) > 0:
+            lock.owner.nlocks -= 1
         lock.held = False
         lock.owner = None
         for t in lock.waiters:
